@@ -1,12 +1,13 @@
+//@ variant: stable FRESH=1 UNW=2
 //@ tu: libxcm/tp/tls/ctx_store.c libxcm/tp/tls/item.c
 //@ enforce: ctx_store_get_ctx
-//@ replace: hash_item load_ssl_ctx
-//@ pre-unwind: ctx_store_get_ctx.8:3 cache_get.0:3 memcmp.0:33 strlen.0:5
-//@ defs: -DXV_LSC_RECORD
+//@ replace: get_credentials_hash load_ssl_ctx
+//@ pre-unwind: ctx_store_get_ctx.8:$UNW cache_get.0:3 memcmp.0:33 strlen.0:5
+//@ defs: -DXV_LSC_RECORD -DXV_MD_FRESH=$FRESH
 //@ flags: --object-bits 11
 //@ props: C15 C18 C08
-//@ bounded: the cache holds 0..2 entries when the lock is acquired; designated names/values of 0..3 bytes, files of 0..64 bytes; the credential files change at most so often that the retry loop runs twice (the 4th digest of a call repeats the 3rd)
-//@ expect: postcondition>=12 canary=7
+//@ bounded: the cache holds 0..2 entries when the lock is acquired; designated names/values and files of 0..3 bytes; variant stable: the credential files do not change during the call (the 2nd digest repeats the 1st: one pass of the retry loop); variant retry: they change at most so often that the loop runs twice (the 4th digest repeats the 3rd)
+//@ expect: postcondition>=12 canary>=6
 #include "_unit_cs.h"
 void harness(void)
 {
@@ -19,7 +20,10 @@ void harness(void)
     if (ctx == NULL && xv_md_calls == md0 + 1) XV_CANARY("failure after the first digest (load or stat failed)");
     if (ctx != NULL && xv_acq.n == 2 && ctx == xv_acq.ctx[1]) XV_CANARY("hit on the second of two entries");
     if (ctx != NULL && xv_md_calls == md0 + 1) XV_CANARY("hit at once");
-    if (ctx != NULL && xv_md_calls == md0 + 3) XV_CANARY("hit on the retry");
     if (ctx != NULL && xv_pub.n == 1) XV_CANARY("new entry in an empty cache");
+    if (ctx != NULL && xv_pub.n == 3) XV_CANARY("new entry in front of two");
+#if XV_MD_FRESH >= 3
+    if (ctx != NULL && xv_md_calls == md0 + 3) XV_CANARY("hit on the retry");
     if (ctx != NULL && xv_pub.n == 3 && xv_md_calls == md0 + 4) XV_CANARY("new entry in front of two, after one retry");
+#endif
 }
